@@ -452,6 +452,10 @@ pub fn keygen<const N: usize>(seed: [u8; 32]) -> (SecretKey<N>, PublicKey<N>) {
 /// [1]: https://falcon-sign.info/falcon.pdf
 pub fn sign<const N: usize>(m: &[u8], sk: &SecretKey<N>) -> Signature<N> {
     let mut rng = thread_rng();
+    #[cfg(feature = "verif-hooks")]
+    let mut rng = crate::verif_hooks::SignRng::new(rng);
+    #[cfg(feature = "verif-hooks")]
+    crate::verif_hooks::emit_sign(crate::verif_hooks::Event::SignStart);
     let mut r = [0u8; 40];
     rng.fill_bytes(&mut r);
 
@@ -500,6 +504,8 @@ pub fn sign<const N: usize>(m: &[u8], sk: &SecretKey<N>) -> Signature<N> {
                 / (n as f64);
 
             if length_squared > (bound as f64) {
+                #[cfg(feature = "verif-hooks")]
+                crate::verif_hooks::emit_sign(crate::verif_hooks::Event::NormReject(length_squared));
                 continue;
             }
 
@@ -513,17 +519,23 @@ pub fn sign<const N: usize>(m: &[u8], sk: &SecretKey<N>) -> Signature<N> {
                 .collect_vec(),
             params.sig_bytelen - 41,
         );
+        #[cfg(feature = "verif-hooks")]
+        let maybe_s = crate::verif_hooks::fp_compress(maybe_s);
 
         match maybe_s {
             Some(s) => {
                 break s;
             }
             None => {
+                #[cfg(feature = "verif-hooks")]
+                crate::verif_hooks::emit_sign(crate::verif_hooks::Event::CompressFail);
                 continue;
             }
         };
     };
 
+    #[cfg(feature = "verif-hooks")]
+    crate::verif_hooks::emit_sign(crate::verif_hooks::Event::SignDone);
     Signature { r, s }
 }
 
@@ -1495,5 +1507,30 @@ mod test {
                 .map(|i| i.value())
                 .collect_vec()
         );
+    }
+}
+
+#[cfg(feature = "verif-hooks")]
+impl<const N: usize> SecretKey<N> {
+    /// Read-only view of the secret basis [g, -f, G, -F].
+    pub fn verif_basis(&self) -> [Vec<i16>; 4] {
+        self.b0.clone().map(|p| p.coefficients)
+    }
+
+    /// All leaf values (normalised standard deviations) of the signing tree,
+    /// left to right, as stored: (re, im) of both slots of every leaf.
+    pub fn verif_tree_leaves(&self) -> Vec<[(f64, f64); 2]> {
+        fn walk(t: &LdlTree, out: &mut Vec<[(f64, f64); 2]>) {
+            match t {
+                LdlTree::Branch(_, l, r) => {
+                    walk(l, out);
+                    walk(r, out);
+                }
+                LdlTree::Leaf(v) => out.push([(v[0].re, v[0].im), (v[1].re, v[1].im)]),
+            }
+        }
+        let mut out = vec![];
+        walk(&self.tree, &mut out);
+        out
     }
 }
